@@ -277,7 +277,26 @@ def _file_write(I, f, s):
     from .layout import LStr
 
     if isinstance(s, LStr):
+        from .layout import Lit, Sp, TokS
+
         f.fields["chunks"].items.append(s)
+        nums = []
+        for seg in s.segs:
+            if isinstance(seg, TokS) and seg.tok.kind in ("int", "fixed"):
+                nums.append(seg.tok.value)      # numeric token (whole by construction in formatted output)
+            elif isinstance(seg, Lit):
+                for t in seg.text.split():
+                    try:
+                        nums.append(Fraction(t))
+                    except (ValueError, ZeroDivisionError):
+                        pass
+        if nums:
+            cur = f.fields["nums"]
+            add = to_seq(I, PList(nums), "Real")
+            f.fields["nums"] = SymSeq(z3.Concat(cur.t, add.t), "Real")
+        last = s.segs[-1] if s.segs else None
+        f.fields["open"] = last is not None and not isinstance(last, Sp) and not (
+            isinstance(last, Lit) and last.text[-1:].isspace())
         return None
     parts = [s] if isinstance(s, str) else (s.parts if isinstance(s, FStr) else None)
     if parts is None:
